@@ -541,10 +541,10 @@ def run_apply_vec(E, case):
                     raise
                 except Exception as e:      # noqa: BLE001
                     from ..runtime import _model_gap
-                    if _model_gap(e):
-                        raise Unsupported("model gap: " + _model_gap(e)) from e
                     if not groups:
                         continue             # nothing selected: whatever happens is outside the statement
+                    if _model_gap(e):
+                        raise Unsupported("model gap: " + _model_gap(e)) from e
                     res["verdict"] = "sat"
                     res["subcases"] += 1
                     if len(res["candidates"]) < 4:
